@@ -7,6 +7,8 @@ shard: steps = list of "A" | "B" (data frame from sender A / B) | "sub0" | "sub1
        xdrop = 1: a third module subscribed to tA is not ready, so every A frame also produces a FAILED_MESSAGE
        r0new = 1: recipient 0 has not completed the handshake yet (frames are forwarded to it all the same); a "conn0" step is its
                CONNECT (-> ACK): the numbering of its connection must run on across the handshake
+       r0fail = k: recipient 0's connection dies at its k-th sendall (its removal nests a CLIENT_CLOSED inside whatever is being
+                delivered; recipient 1, served after it, must still get whole, gap-free frames)
        r0skip = list of step indices at which recipient 0 is NOT ready to accept data (what is due to it then is dropped and
                 reported, not written): the frames it does get afterwards must still be numbered without a gap
 symbolic: tA, tB (data types), payload sizes nA, nB 0..65535, the recipients' msg_count before the sequence,
@@ -49,6 +51,8 @@ def scenario(tA, tB, nA, nB, c0, c1, ts):
         R[0].conn.block_at = sh("r0block")     # recipient 0's send buffer fills up: only matters to code that sends non-blockingly
     if sh("r1fail", 0):
         R[1].conn.fail_after = sh("r1fail") - 1
+    if sh("r0fail", 0):
+        R[0].conn.fail_after = sh("r0fail") - 1     # recipient 0 dies first: what recipient 1 is sent AFTER the failure must still be whole frames
     if sh("xdrop", 0):
         W.subscribe(mm, X, tA)      # X is not in wlist: every A frame is dropped for it -> FAILED_MESSAGE
     with disable_message_validation():
@@ -78,6 +82,8 @@ def scenario(tA, tB, nA, nB, c0, c1, ts):
                 mm.send_client_info(A)
     for k in range(2):
         c = R[k].conn
+        if k == 0 and sh("r0fail", 0):
+            continue
         if k == 1 and sh("r1fail", 0):
             # a frame may be cut only by a send failure, and then the connection is closed and forgotten
             if len(c.calls) > sh("r1fail") - 1:
